@@ -19,6 +19,9 @@ counting ghost.
                   with the first estimate met; records every contributing (writer, incarnation); validation compares the whole
                   origin chain; publications are accepted only for a strictly newer incarnation.
   h4_history_invalidate : invalidation acts only on the inspected incarnation.
+  h5_beneficiary_read : IncarnationDb::basic(fee recipient) returns exactly the history's resolution, records a Beneficiary read
+                  version carrying the whole origin chain, and on an estimate blocks the incarnation (flag + blocker, absent account, no
+                  read-set entry, no read of the mutable committed cache).
 """
 import glob
 import os
@@ -293,6 +296,80 @@ def build_h4():
     return b
 
 
+# ------------------------------------------------------------------------------------------------ h5: beneficiary read through IncarnationDb
+def build_h5():
+    import idb_common as ic
+    import c08
+
+    def b(tr):
+        H = hz.Harness(tr, "c07_h5")
+        ic.declare_db(H)
+        J = HN
+        # IncarnationDb over a REAL Beneficiary (address 1) with an arbitrary history
+        bene = H.local("bene", "Beneficiary")
+        back = H.local("back", "DB")
+        mv = H.local("mv", "MVMemory")
+        idb = H.local("idb", "IncarnationDb<DB>")
+        tr.store(Loc(H.nav(idb, "beneficiary"), []), VRef(bene, []))
+        tr.store(Loc(H.nav(idb, "backing_db"), []), VRef(back, []))
+        tr.store(Loc(H.nav(idb, "mv_memory"), []), VRef(mv, []))
+        H.c(f"{H.lv(bene, 'address')} = 1; {H.lv(idb, 'blocked_by_beneficiary')} = 0;")
+        H.cvar("j", "usize", shared=False)
+        H.c(f"j = nondet_usize(); __CPROVER_assume(j <= {J}); {H.lv(idb, 'version.txid')} = j; {H.lv(idb, 'version.incarnation')} = 1;")
+        for k in range(ic.KL):
+            H.c(f"{H.lv(idb, 'read_set.present.e', [k])} = 0; {H.lv(mv, 'slots.e.locked', [k])} = 0; {H.lv(mv, 'slots.e.data.present', [k])} = 0;")
+        for a_ in range(ic.A):
+            H.c(f"{H.lv(idb, 'account_snapshots.present.e', [a_])} = 0;")
+        for t in range(H.nav(idb, "blocking_txs.present").cap):
+            H.c(f"{H.lv(idb, 'blocking_txs.present.e', [t])} = 0;")
+        hx = Hist(H, H.nav(bene, "history"))
+        hx.havoc()
+        # reference: the history's own resolution (decided against its oracle in h3) on an identical copy taken before the read
+        ref = H.local("ref", "Result<BeneficiaryRead, usize>")
+        H.call("BeneficiaryHistory::resolve_before", [H.ref(bene, "history"), H.val("j")], ref)
+        res = H.local("res", "Result<Option<AccountInfo>, DBError>")
+        H.call("<IncarnationDb as Database>::basic", [H.ref(idb), H.val("1", "unsigned char")], res)
+        rd = H.lv(ref, "d")
+        okr, errr = H.variant(ref, "", "Ok"), H.variant(ref, "", "Err")
+        H.assert_(f"{H.lv(res, 'd')} == {H.variant(res, '', 'Ok')}", "a beneficiary read never faults: it does not touch the backing store")
+        opt = H.nav(res, "Ok.0")
+        racc = H.nav(ref, "Ok.0.account")
+        H.assert_(f"!({rd} == {okr}) || ({H.lv(opt, 'd')} == {H.lv(racc, 'd')} && ({H.lv(opt, 'd')} == 0 || ({H.lv(opt, 'Some.0.balance')} == {H.lv(racc, 'Some.0.balance')} && "
+                  f"{H.lv(opt, 'Some.0.nonce')} == {H.lv(racc, 'Some.0.nonce')} && {H.lv(opt, 'Some.0.code_hash')} == {H.lv(racc, 'Some.0.code_hash')})))",
+                  "a transaction reading the fee recipient observes exactly the history's resolution: anchor / snapshot plus the preceding credits")
+        kb = 1
+        rs = H.nav(idb, "read_set.vals.e")
+        H.assert_(f"!({rd} == {okr}) || ({H.lv(idb, 'read_set.present.e', [kb])} && {H.lv(rs, 'd', [kb])} == {H.variant(rs, '', 'Beneficiary')})",
+                  "the read is recorded as a Beneficiary read version")
+        ro = H.nav(ref, "Ok.0.version.origins")
+        so = H.nav(rs, "Beneficiary.0.origins")
+        H.assert_(f"!({rd} == {okr}) || {H.lv(so, 'len', [kb])} == {H.lv(ro, 'len')}", "... carrying the whole origin chain")
+        for k in range(HN):
+            H.assert_(f"!({rd} == {okr} && {k} < {H.lv(ro, 'len')}) || ({H.lv(so, 'e.txid', [kb, k])} == {H.lv(ro, 'e.txid', [k])} && {H.lv(so, 'e.incarnation', [kb, k])} == {H.lv(ro, 'e.incarnation', [k])})",
+                      f"origin {k} recorded")
+        H.assert_(f"!({rd} == {okr}) || (!{H.lv(idb, 'blocked_by_beneficiary')} && db_basic_reads == 0)", "an exact read neither blocks nor consults the mutable committed cache / backing store")
+        bt = H.nav(idb, "blocking_txs.present")
+        for t in range(bt.cap):
+            H.assert_(f"{H.lv(idb, 'blocking_txs.present.e', [t])} == ({rd} == {errr} && {H.lv(ref, 'Err.0')} == {t})", f"tx {t} blocks the reader iff it is the estimate met first")
+        H.assert_(f"!({rd} == {errr}) || ({H.lv(idb, 'blocked_by_beneficiary')} && {H.lv(opt, 'd')} == 0 && !{H.lv(idb, 'read_set.present.e', [kb])} && db_basic_reads == 0)",
+                  "an estimate blocks the incarnation: flagged, absent account handed to the EVM, nothing recorded, no second history anchor read")
+        H.cover(f"{rd} == {okr} && {H.lv(ro, 'len')} >= 2", "a chain of two origins"); H.cover(f"{rd} == {errr}", "blocked by an estimate")
+        return H
+    return b
+
+
+def h5_cfg():
+    import idb_common as ic
+    c = ic.cfg(HN)
+    ov = c["type_overrides"]
+    for k in ("Beneficiary", "BeneficiaryReadVersion"):
+        ov.pop(k, None)
+    for k in ("Beneficiary::matches", "Beneficiary::resolve_before"):
+        c["stubs"].pop(k, None)
+    c["loops"] = {"BeneficiaryHistory::scan_before": {"*": (HN + 1, "assert")}}
+    return c
+
+
 def specs(tier):
     import c03
     out = [Spec("h1_apply_rule", build_h1(), cfg=cfg(), unwind=3, timeout=2700,
@@ -307,4 +384,7 @@ def specs(tier):
                          "snapshot, any incarnations, any anchor)", bounds={"n": HN, "value_bits": 8}))
     out.append(Spec("h4_history_invalidate", build_h4(), cfg=hist_cfg(), unwind=HN + 3, timeout=1800,
                     desc="real BeneficiaryHistory::invalidate from any entry vector", bounds={"n": HN}))
+    out.append(Spec("h5_beneficiary_read", build_h5(), cfg=h5_cfg(), unwind=HN + 3, timeout=2700,
+                    desc="real IncarnationDb::basic on the fee recipient over a real Beneficiary with ANY 3-entry history: value, Beneficiary read version, blocking",
+                    bounds={"n": HN, "value_bits": 8}))
     return out
